@@ -419,6 +419,10 @@ def token_of(p, spec=''):
     tok = _TOK_BY_ID.get(key)
     if tok is None:
         tok = '@%s%x%s@' % ('I' if isinstance(p, SymInt) else 'R', len(_TOKENS) + 0xa00, '')
+        if not spec and not isinstance(p, SymInt):
+            # repr() of a float64 is up to 24 characters long (sign, 17 digits, point, e-xxx): the placeholder is as
+            # wide as the widest text it stands for, so that a fixed-width buffer in between truncates it too
+            tok = tok[:-1] + '_' * (24 - len(tok)) + '@'
         _TOK_BY_ID[key] = tok
         _TOKENS[tok] = (p, spec)
     return tok
